@@ -107,17 +107,24 @@ fn run_op(op: &str, shape: usize, n: usize) -> String {
                 let mut extra = match nested { Ok((p, q)) => jsonb::compare(&p, &q).is_ok() && jsonb::compare(&q, &p).is_ok(), Err(_) => false };
                 // small depths: chains whose innermost arrays have different lengths ([..[1,2,3]..] against [..[1]..])
                 if n <= 48 {
-                    let one = [0x20u8, 0, 0, 0, 0x20, 0, 0, 2, 0x50, 1];
+                    let nums: Vec<[u8; 10]> = (1..=4u8).map(|v| [0x20u8, 0, 0, 0, 0x20, 0, 0, 2, 0x50, v]).collect();
                     let chain = |k: usize| -> Result<Vec<u8>, jsonb::Error> {
-                        let items: Vec<&[u8]> = (0..k).map(|_| &one[..]).collect();
+                        let items: Vec<&[u8]> = (0..k).map(|j| &nums[j % 4][..]).collect();
                         let mut cur = wrap(&items)?;
                         for _ in 1..n {
                             cur = wrap(&[&cur])?;
                         }
                         Ok(cur)
                     };
-                    match (chain(3), chain(1), chain(0)) {
-                        (Ok(x), Ok(y), Ok(z)) => extra = extra && jsonb::compare(&x, &y).is_ok() && jsonb::compare(&y, &x).is_ok() && jsonb::compare(&x, &z).is_ok() && jsonb::compare(&z, &y).is_ok(),
+                    match (chain(3), chain(1), chain(0), chain(2), chain(4)) {
+                        (Ok(x), Ok(y), Ok(z), Ok(w), Ok(v)) => {
+                            let all = [&x, &y, &z, &w, &v];
+                            for a in all {
+                                for b in all {
+                                    extra = extra && jsonb::compare(a, b).is_ok();
+                                }
+                            }
+                        }
                         _ => extra = false,
                     }
                 }
@@ -365,6 +372,23 @@ pub fn spaces(tier: Tier) -> Vec<Space<'static>> {
         }
         acc.sample(|| json!({"doc": format!("{:?}", v), "arguments": "i32::MIN, MIN+1, MAX-1, MAX, MIN+len, MAX-len, -len-2..len+2"}));
     }));
+    // comparing: every ordered pair of the D2 documents, each wrapped in two more array levels (nested
+    // containers of every small shape and of different sizes at the same position): a result or an
+    // error, never a panic
+    {
+        let wrapped: std::sync::Arc<Vec<Vec<u8>>> = std::sync::Arc::new(crate::univ::d2().iter().map(|v| enc(&RVal::Arr(vec![RVal::Arr(vec![v.clone()]), RVal::u(1)]))).collect());
+        let nw = wrapped.len();
+        sp.push(Space::new("compare on every ordered pair of twice-wrapped D2 documents: never a panic", nw as u64, move |i, acc| {
+            let a = &wrapped[i as usize];
+            for b in wrapped.iter() {
+                acc.eval();
+                if let Err(p) = guard(|| { let _ = jsonb::compare(a, b); let _ = jsonb::contains(a, b); }) {
+                    acc.vio(&format!("nested-pairs:compare-or-contains:{}", if p.msg.contains("overflow") { "arithmetic-overflow" } else { "panic" }), || json!({"a": hex(a), "b": hex(b), "panic": format!("{} {}", p.site, p.msg)}));
+                }
+            }
+            acc.nontrivial += 1;
+        }));
+    }
     // extreme numbers written as text in key paths and JSONPath index positions: parse, print, evaluate
     {
         let nums = std::sync::Arc::new(extreme_number_texts());
